@@ -458,7 +458,24 @@ func runC17x(c string) string {
 		sc3 := sliceio.NewScanner(typ2, &upReader{rows: [][2]int64{{1, 2}}})
 		bad2 := sc3.Scan(ctx, &k, &s)
 		e2 := sc3.Err() != nil
-		return fmt.Sprintf("end calls=0:0:%s:0 | rows=%s | altered=0 | arity=%v,%v type=%v,%v", res, strings.Join(rows, ";"), bad1, e1, bad2, e2)
+		// … also on a scanner that has already served a good Scan
+		later := func(bad func(sc *sliceio.Scanner) bool) (res string) {
+			defer func() {
+				if e := recover(); e != nil {
+					res = "panic"
+				}
+			}()
+			sc := sliceio.NewScanner(typ2, &upReader{rows: [][2]int64{{1, 2}, {3, 4}, {5, 6}}})
+			if !sc.Scan(ctx, &k, &v) {
+				return "firstfailed"
+			}
+			ok := bad(sc)
+			return fmt.Sprintf("%v,%v", ok, sc.Err() != nil)
+		}
+		l1 := later(func(sc *sliceio.Scanner) bool { return sc.Scan(ctx, &k) })
+		l2 := later(func(sc *sliceio.Scanner) bool { return sc.Scan(ctx, &k, &s) })
+		l3 := later(func(sc *sliceio.Scanner) bool { return sc.Scan(ctx, &k, &v, &k) })
+		return fmt.Sprintf("end calls=0:0:%s:0 | rows=%s | altered=0 | arity=%v,%v type=%v,%v later=%s;%s;%s", res, strings.Join(rows, ";"), bad1, e1, bad2, e2, l1, l2, l3)
 	case "scannerv":
 		// vector scans: every DEST entry is the length of the column vectors of one Scanv call
 		sc := sliceio.NewScanner(typ2, ups[0])
